@@ -5,8 +5,19 @@ C08, clause "packages, FINDINGS and STATUSES are emitted in the documented sorte
 Keys are byte strings compared field by field with Go's bytewise `<` (`Scalibr.ltBytes`). For every
 scan input (any extractor findings, any detectors — arbitrary functions of the index —, any statuses):
 the emitted lists are sorted w.r.t. that order and are permutations of what was collected, and the
-emitted KEY SEQUENCE is the unique sorted sequence of the collected keys, whatever order the detectors
-were listed in. (The order of packages is `Properties/C08.lean`.)
+emitted KEY SEQUENCE and the emitted MULTISET are the same whatever order the detectors were listed in.
+(The order of packages is `Properties/C08.lean`.)
+
+What carries content here (audit note): the model's tail of `Scan` is DEFINED as `isort cmp xs`
+(`slices.SortFunc` by contract), so "the output is sorted and a permutation" is the library lemma
+`isort_sorted`/`isort_perm` for that definition. The property-relevant facts are (a) the comparator is the
+documented one — field by field over byte strings, a strict total order on keys (`C08_cmp_findings`,
+`C08_cmp_findings_fields`, `C08_cmp_status`), which is what makes the sorted key sequence unique — and (b)
+the correspondence stream, which reads the real `Scan`'s findings/statuses in emitted order and compares
+their key sequence with the documented order and their multiset with the collected one. Findings that
+TIE on (reference, extra) — the same advisory on several targets — have no documented relative order:
+`slices.SortFunc` is unstable, the model's `isort` is stable, so neither the theorems nor the oracle say
+anything about the positions of tied findings (`C08_tied_findings_swap`).
 -/
 import Scalibr.Proofs.FindingsOrder
 import Scalibr.Proofs.Detector
@@ -31,9 +42,9 @@ theorem C08_cmp_findings_fields (r₁ e₁ r₂ e₂ : List Nat) :
       subst this
       simp [ltBytes_strictTotal.irrefl]
 
-/-- The plugin-status comparator is the bytewise order of the names (a strict total order on names). -/
-theorem C08_cmp_status : StrictTotal ltBytes ∧ ∀ a b : Status, statusLt a b = ltBytes (nameBytes a.name) (nameBytes b.name) :=
-  ⟨ltBytes_strictTotal, fun _ _ => rfl⟩
+/-- The plugin-status comparator `statusLt` is, by definition, the bytewise order `ltBytes` of the plugin names;
+that order is a strict total order on names. -/
+theorem C08_cmp_status : StrictTotal ltBytes := ltBytes_strictTotal
 
 /-- what `Scan` collected before `sortResults`: the extractors' findings, then what `detector.Run` returned -/
 def collectedFindings (i : ScanIn) : List Finding :=
@@ -43,13 +54,31 @@ def collectedStatus (i : ScanIn) : List Status :=
   i.fsStatus ++ i.stStatus ++ (run i.dets (Index.new (i.fsPkgs ++ i.stPkgs))).status
 
 /-- The emitted findings are sorted by (reference, then Extra) and are a permutation of the collected
-ones — for every scan. (A finding without advisory/ID, which only an extractor can contribute and on
-which `cmpFindings` panics, counts as smallest; see `C20_no_sort_panic`.) -/
+ones. Definitional for the model (`isort`), see the header. "For every scan" includes scans on which the
+Go code PANICS: a finding without advisory/ID (only an extractor can contribute one) is totalised as
+smallest by `optKeyLt`, whereas `cmpFindings` dereferences nil — `C08_findings_keyed_unless_panic` says
+when that is, `C20_no_sort_panic_partial` that it cannot happen without extractor findings. -/
 theorem C08_findings_sorted (i : ScanIn) :
     (scanTail i).findings.Pairwise (fun a b => optKeyLt (sortKey b) (sortKey a) = false) ∧
     (scanTail i).findings.Perm (collectedFindings i) := by
   unfold scanTail collectedFindings
   exact ⟨isort_sorted_of_key optKeyLt_strictTotal sortKey _, isort_perm _ _⟩
+
+/-- Where the model does not predict a panic and there is anything to compare, every emitted finding has a key
+(so the order below is the real `cmpFindings` order, not the totalisation). -/
+theorem C08_findings_keyed_unless_panic (i : ScanIn) (hp : (scanTail i).panics = false)
+    (hl : 2 ≤ (scanTail i).findings.length) : ∀ f ∈ (scanTail i).findings, (sortKey f).isSome = true := by
+  have hperm := (C08_findings_sorted i).2
+  have hlen : 2 ≤ (collectedFindings i).length := by rw [← hperm.length_eq]; exact hl
+  intro f hf
+  have hf' : f ∈ collectedFindings i := hperm.mem_iff.1 hf
+  unfold scanTail at hp
+  simp only [Bool.and_eq_false_iff, decide_eq_false_iff_not, Nat.not_le] at hp
+  rcases hp with hp | hp
+  · unfold collectedFindings at hlen; omega
+  · rw [List.any_eq_false] at hp
+    have := hp f (by unfold collectedFindings at hf'; exact hf')
+    cases h : sortKey f <;> simp_all
 
 /-- In words of the keys: if `a` is emitted before `b` and both have keys, then NOT key(b) < key(a). -/
 theorem C08_findings_sorted_keys (i : ScanIn) (a b : Finding) (ka kb : List Nat × List Nat)
@@ -68,12 +97,30 @@ theorem C08_findings_key_sequence (i : ScanIn) :
   unfold scanTail collectedFindings
   exact isort_map optKeyLt sortKey _
 
+/-- ORDER INDEPENDENCE, as far as it goes: two scans that collect the same findings in different orders
+(detectors listed differently, findings returned in another order) emit the same MULTISET of findings and
+the same KEY SEQUENCE. Nothing more: see `C08_tied_findings_swap`. -/
 theorem C08_findings_order_independent (i j : ScanIn) (h : (collectedFindings i).Perm (collectedFindings j)) :
+    (scanTail i).findings.Perm (scanTail j).findings ∧
     (scanTail i).findings.map sortKey = (scanTail j).findings.map sortKey := by
+  refine ⟨((C08_findings_sorted i).2.trans h).trans (C08_findings_sorted j).2.symm, ?_⟩
   rw [C08_findings_key_sequence, C08_findings_key_sequence]
   exact optKeyLt_strictTotal.isort_perm_eq _ _ (h.map sortKey)
 
-/-- The emitted plugin statuses are sorted by name (bytewise) and are a permutation of the collected ones. -/
+/-- Findings that TIE on (reference, extra) are NOT emitted in an order-independent way: two detectors
+reporting the same advisory for targets 100 and 200 come out in detector order (the model's `isort` is
+stable; Go's `slices.SortFunc` promises nothing for ties). Key sequences agree, positions do not. -/
+def tieA : Detector := ⟨"dA", fun _ => ([some ⟨1, some ⟨some (0, [67]), 0⟩, 100, [], []⟩], false), false⟩
+def tieB : Detector := ⟨"dB", fun _ => ([some ⟨2, some ⟨some (0, [67]), 0⟩, 200, [], []⟩], false), false⟩
+theorem C08_tied_findings_swap :
+    (scanTail ⟨[], [], [], [], [], [], [tieA, tieB]⟩).findings.map (·.target) = [100, 200] ∧
+    (scanTail ⟨[], [], [], [], [], [], [tieB, tieA]⟩).findings.map (·.target) = [200, 100] ∧
+    (scanTail ⟨[], [], [], [], [], [], [tieA, tieB]⟩).findings.map sortKey =
+      (scanTail ⟨[], [], [], [], [], [], [tieB, tieA]⟩).findings.map sortKey := by
+  refine ⟨by decide, by decide, by decide⟩
+
+/-- The emitted plugin statuses are sorted by name (bytewise) and are a permutation of the collected ones
+(definitional for the model, see the header; several roots give several entries with one name: ties). -/
 theorem C08_status_sorted (i : ScanIn) :
     (scanTail i).pluginStatus.Pairwise (fun a b => ltBytes (nameBytes b.name) (nameBytes a.name) = false) ∧
     (scanTail i).pluginStatus.Perm (collectedStatus i) := by
